@@ -24,7 +24,7 @@ def run(tier, replay=None):
     fos = sorted(glob.glob(os.path.join(corpus, "*.fo")))
     # generated family G01 (deterministic for seed and count)
     seed = int(os.environ.get("VERIF_SEED", "1") or 1)
-    count = 24 if tier == "quick" else 160
+    count = 32 if tier == "quick" else 160
     g_fo, g_go, g_names = g01gen.gen(seed, count)
     gdir = tempfile.mkdtemp(prefix="g01_", dir=scratch())
     open(os.path.join(gdir, "g01.fo"), "w").write(g_fo)
@@ -32,7 +32,7 @@ def run(tier, replay=None):
     ck.seed = seed
     ck.bounds["generated_family_G01"] = "%d random programs (seed %d): let-normal-form bodies of 2..5 statements over int/bool with if/elif/else, &&/||, + - *const, comparisons, match on a 3-case union, pipe into a partial application, tuple destructuring, nested blocks to depth 2, tagged trace calls around sub-expressions" % (count, seed)
     # generated family G02 (closures, partial applications, nested matches, minimal parentheses, random indentation)
-    count2 = 16 if tier == "quick" else 120
+    count2 = 40 if tier == "quick" else 120
     h_fo, h_go, h_names = g02gen.gen(seed, count2)
     open(os.path.join(gdir, "g02.fo"), "w").write(h_fo)
     fos.append(os.path.join(gdir, "g02.fo"))
